@@ -83,8 +83,10 @@ FINDINGS = {
                                 'product sample: ValueError in the generated Assemble statement; the unoptimised evaluation equals NumPy (root cause in the scope of C02)', True),
     'C07-empty-result-on-product-sample': ('a function array with a zero-length axis (a[2:1]) evaluated on a product sample (sx*sy) comes back with 0 points: '
                                            'shape (0, 0, ...) instead of (npoints, 0, ...); _Mul._bind reshapes with -1', True),
-    'C07-assemble-no-int-range': ('an integer numpy.stack / numpy.concatenate result used as index (numpy.take, __getitem__) or as integer exponent fails with AssertionError '
-                                  'in the optimisation pass only: evaluable.Assemble has no _intbounds_impl, so its inferred range is unbounded', True),
+    'C07-int-range-lost-in-rewrite': ('an integer numpy.stack / numpy.concatenate result (or an element of it) used as index (numpy.take, __getitem__) or as integer exponent builds but '
+                                      'fails with AssertionError at evaluation: the simplifier / optimiser rewrites the operand into a form with a wider inferred integer range '
+                                      '(evaluable.Assemble has no _intbounds_impl -> (-inf, inf); Take of Inflate -> Sum over a length bounded by (0, inf)) and re-runs the range '
+                                      'assertion of NormDim / Power on it', True),
     'C07-choose-bool-selector': ('numpy.choose(f > 0, [a, b]) with a boolean selector builds but evaluation raises AssertionError (evaluable.Choose demands an int index); '
                                  'corner switched off pending a decision: the where-like cases use (f > 0) * 1', False),
     'C07-cross-int-float': ('numpy.cross of two integer function arrays has dtype float (float Levi-Civita symbol); NumPy gives int', True),
@@ -143,7 +145,7 @@ def classify(prog, monitor, nodeid, detail=''):
     scattered = lambda t: t.get('op') in ('stack', 'concatenate') or (t.get('leaf') == 'topo' and 'ivec' in t['name'])     # X.ivec is a numpy.stack
     if monitor.startswith('evaluation failed') and 'AssertionError' in detail and op in ('power', 'take', 'getitem') \
             and any(scattered(byid[a]) for r in s['args'][1:] for a in ({r} | _ancestors(prog, r)) if a in byid):
-        return 'C07-assemble-no-int-range'      # integer exponent / index derived from a scattered (stack, concatenate) integer array
+        return 'C07-int-range-lost-in-rewrite'      # integer exponent / index derived from a scattered (stack, concatenate) integer array
     if monitor.endswith('(optimised code only)'):
         return 'C07-optimized-mode-only'
     if op == 'choose' and monitor == 'evaluation failed' and _kind_of(prog, byid[s['args'][0]]) == 'b':
@@ -674,7 +676,9 @@ def repro_assemble_range():
             ('numpy.take(arange(20), numpy.stack([[-1,-2,-3],[-4,-5,-6]]))', lambda: numpy.take(A(numpy.arange(20)), numpy.stack([A(numpy.array([-1, -2, -3])), numpy.array([-4, -5, -6])])),
              numpy.arange(20)[numpy.array([[-1, -2, -3], [-4, -5, -6]])]),
             ('numpy.power([2,3,4], numpy.concatenate([[1,2],[0]]))', lambda: numpy.power(A(numpy.array([2, 3, 4])), numpy.concatenate([A(numpy.array([1, 2])), numpy.array([0])])),
-             numpy.array([2, 9, 1]))):
+             numpy.array([2, 9, 1])),
+            ('numpy.take(arange(40), numpy.stack([[1,2],[3,4],[5,6]], 1)[:, -1])', lambda: numpy.take(A(numpy.arange(40)), numpy.stack([A(numpy.array([1, 2])), numpy.array([3, 4]), numpy.array([5, 6])], 1)[:, -1]),
+             numpy.array([5, 6]))):
         try:
             r = function.eval(build())
             if r.shape != expect.shape or (r != expect).any():
@@ -696,7 +700,7 @@ def repro_choose_bool():
 
 
 REPRODUCERS = {
-    'C07-assemble-no-int-range': repro_assemble_range,
+    'C07-int-range-lost-in-rewrite': repro_assemble_range,
     'C07-choose-bool-selector': repro_choose_bool,
     'C07-empty-result-on-product-sample': repro_empty_product,
     'C07-optimized-mode-only': repro_optimized,
